@@ -5,4 +5,5 @@ INVARIANT WholeGroupSeen
 INVARIANT SingleCallSmall
 INVARIANT NoCallsWhenEmpty
 INVARIANT PassesPrefix
+INVARIANT LcgSplitOk
 CHECK_DEADLOCK FALSE
